@@ -22,9 +22,9 @@ CHECKS = {
               "known findings are delimited by region predicates and the obligation is proved outside them."),
         technique='contract-based deductive verification: path-wise VCs from instrumented native execution of the real constructors, discharged by z3 (strings/regex/LIA/LRA)'),
     'C03': dict(
-        category='proof',
+        category='other',
         text=("Postconditions of import against the vendored schema: every finite quantifier of the property (441 element names, 228 complex types, 45 attribute groups, "
-              "158 simple-type classes) is enumerated completely on the real import-time objects, in a pristine and in a warmed process state; the content-model clause is a "
+              "158 simple-type classes) is enumerated completely on the real import-time objects, in a pristine and in a warmed process state (category 'other' because 26 obligations are known findings, so not every obligation is discharged); the content-model clause is a "
               "language-equivalence proof per type (template tree and per-instance copy read back into a regex, xor-membership refuted by z3's regex theory) for all words."),
         design_ref='DESIGN.md 5 C03',
         note='xsdspec reading of the vendored XSD; z3 regex decision procedure; naming rule restated in the contract; known findings matched by exact failure signature.',
@@ -88,7 +88,7 @@ CHECKS.update({
     'C13': dict(category='other', text=("Frame contracts (writes only to the owned region, the arguments, or write-once cache slots) checked by differencing a fingerprint of ALL shared state (every class dictionary, every template tree, XSD_TREE_DICT) and identity snapshots of bystander instances around "
                                         "the operations: complete over the finite class sets (158 simple types, 441 element classes), bounded over operation histories (94 content types); copy-ownership of fresh elements per type."),
                 design_ref='DESIGN.md 5 C13', note='run-time frame checking (state differencing), not a static frame proof; write-once whitelist stated in the evidence.', technique='frame contracts checked by state differencing on complete class sets + bounded histories'),
-    'C15': dict(category='proof', text=("Dispatch contract of __setattr__/__getattr__/_convert_attribute_to_child with the explicit API replaced by recording stubs: for all 441 classes x every possible child name x {instance, None, value} x {found, not found} x read, and every declared attribute spelling, "
+    'C15': dict(category='other', text=("Dispatch contract of __setattr__/__getattr__/_convert_attribute_to_child with the explicit API replaced by recording stubs: for all 441 classes x every possible child name x {instance, None, value} x {found, not found} x read, and every declared attribute spelling, "
                                         "the recorded explicit call is exactly the one the contract names; exceptions of the explicit call propagate. The quantifiers are finite and enumerated completely."),
                 design_ref='DESIGN.md 5 C15', note='callees by contract (C04/C06); pre-states built by direct list insertion.', technique='callee-by-contract dispatch verification, finite-complete'),
     'C16': dict(category='other', text=("_create_et_xml_element against a recording ElementTree stub with SYMBOLIC text and attribute value (all strings: handed on verbatim, children in view order, indent at depth) per class; purity/determinism on the real back end; "
